@@ -137,7 +137,7 @@ def containsReturns : List String :=
   ["false", "false", "false", "false", "false", "false", "false", "true"]
 def addStampConds : List String := ["in == nil", "v != nil && v.Provider == s.Provider"]
 def addStampReturns : List String := ["[]*Stamp{s}", "in", "append(in, s)"]
-def appendLinkConds : List String := ["l == nil", "v.Key == l.Key"]
+def appendLinkConds : List String := ["l == nil", "v != nil && v.Key == l.Key"]
 def appendLinkReturns : List String := ["list", "list", "append(list, l)"]
 def copyInPlaceStamp : List String := ["*v = *s"]
 def copyInPlaceLink : List String := ["*v = *l"]
